@@ -86,6 +86,76 @@ def load_extractors():
     return mods
 
 
+def canonical_copy(repo):
+    """The extractors are regular expressions over the headers; to make them independent of layout (line breaks, brace and
+    pointer placement, spacing) they read a copy of include/quill re-formatted with clang-format and the style file that was
+    in the repository at the pinned commit (tools/quill.clang-format — a copy, so that an edit to the repository's own style
+    file changes nothing here). The pinned tree extracts identically with and without this step. Returns the directory to
+    read from (the repository itself when clang-format is not available)."""
+    import hashlib
+    import shutil
+    import subprocess
+    import tempfile
+    cf = shutil.which("clang-format") or shutil.which("clang-format-14")
+    style = os.path.join(os.path.dirname(os.path.abspath(__file__)), "quill.clang-format")
+    inc = os.path.join(repo, "include")
+    if not cf or not os.path.exists(style) or not os.path.isdir(inc):
+        return repo
+    h = hashlib.sha1()
+    files = []
+    for root, _, names in os.walk(os.path.join(inc, "quill")):
+        if "bundled" in root:
+            continue
+        for n in sorted(names):
+            if n.endswith(".h"):
+                fp = os.path.join(root, n)
+                files.append(fp)
+                h.update(fp.encode())
+                with open(fp, "rb") as f:
+                    h.update(f.read())
+    with open(style, "rb") as f:
+        h.update(f.read())
+    h.update(b"v3-comments-and-blank-lines-stripped")
+    base = os.path.join(os.path.dirname(os.path.dirname(os.path.abspath(__file__))), ".cache")
+    os.makedirs(base, exist_ok=True)
+    dst = os.path.join(base, "canon_" + h.hexdigest()[:16])
+    if os.path.isdir(os.path.join(dst, "include")) and os.path.exists(os.path.join(dst, ".done")):
+        return dst
+    tmp = tempfile.mkdtemp(prefix="canon_", dir=base)
+    try:
+        shutil.copytree(inc, os.path.join(tmp, "include"))
+        for e in os.listdir(repo):   # everything else (tests, CMake files …) is reachable through links
+            if e not in ("include", ".git", "_build") and not os.path.exists(os.path.join(tmp, e)):
+                try:
+                    os.symlink(os.path.join(repo, e), os.path.join(tmp, e))
+                except OSError:
+                    pass
+        canon = [os.path.join(tmp, os.path.relpath(fp, repo)) for fp in files]
+        for fp in canon:   # comments first (clang-format re-flows them, and where a comment sits changes the line breaks around it)
+            with open(fp, encoding="utf-8", errors="replace") as f:
+                txt = f.read()
+            txt = "\n".join(ln.rstrip() for ln in strip_cpp_comments(txt).split("\n") if ln.strip()) + "\n"
+            with open(fp, "w", encoding="utf-8") as f:
+                f.write(txt)
+        r = subprocess.run([cf, "-style=file:" + style, "-i"] + canon, capture_output=True, text=True, timeout=300)
+        if r.returncode != 0:
+            shutil.rmtree(tmp, ignore_errors=True)
+            return repo
+        open(os.path.join(tmp, ".done"), "w").close()
+        if os.path.isdir(dst):
+            shutil.rmtree(dst, ignore_errors=True)
+        os.rename(tmp, dst)
+        # keep the cache small
+        olds = sorted((d for d in os.listdir(base) if d.startswith("canon_") and os.path.join(base, d) != dst),
+                      key=lambda d: os.path.getmtime(os.path.join(base, d)))
+        for d in olds[:-3]:
+            shutil.rmtree(os.path.join(base, d), ignore_errors=True)
+        return dst
+    except Exception:
+        shutil.rmtree(tmp, ignore_errors=True)
+        return repo
+
+
 def main(repo, out_dir):
     """every module tools/extractors/<x>.py provides
          IMPORTS : list of Lean modules its section needs (model files only, never Props/Obligations)
@@ -93,6 +163,8 @@ def main(repo, out_dir):
        and gets its own generated file lean/QuillModel/Extracted/<X>.lean ending with
          `def <x>Failures : List String` (constructs that could not be found — a broken tie)."""
     os.makedirs(out_dir, exist_ok=True)
+    if os.environ.get("VERIF_NO_CANON") is None:
+        repo = canonical_copy(repo)
     all_failures = []
     out = {}
     changed = False
